@@ -57,13 +57,18 @@ def twin_graphs(rng):
     n = rng.choice([40, 64])
     w = (np.arange(n * n, dtype="float64").reshape(n, n) % 17) / 8.0
     w2 = w.copy()
-    if rng.random() < 0.5:
+    r = rng.random()
+    if r < 0.35:
         w2[n // 2, n // 2] += 1.0
-    else:
+    elif r < 0.7:
         w2[n // 2, n // 2] += 1e-10
+    else:
+        # same architecture, same dtype KIND, other width: float32 first, then float64 values float32 cannot hold
+        w = w.astype("float32")
+        w2 = w2 + 1e-9
     def g(x):
         return {"k": "NIRGraph", "nodes": {"input": {"k": "Input", "args": {"input_type": np.array([n])}},
-                                           "w": {"k": "Affine", "args": {"weight": x, "bias": np.zeros(n)}},
+                                           "w": {"k": "Affine", "args": {"weight": x, "bias": np.zeros(n, dtype=x.dtype)}},
                                            "output": {"k": "Output", "args": {"output_type": np.array([n])}}},
                 "edges": [("input", "w"), ("w", "output")]}
     return g(w), g(w2)
@@ -79,7 +84,8 @@ def gen(rng, tier):
               [{"op": "write", "recipe": V.enc_recipe(b)}, {"op": "read"}]
         if rng.random() < 0.5:
             ops += [{"op": "write", "recipe": V.enc_recipe(a)}, {"op": "read"}]
-        cases.append({"kind": "hist", "target": rng.choice(["str", "path"]), "ops": ops, "fname": rng.choice(FNAMES)})
+        cases.append({"kind": "hist", "target": rng.choice(["str", "path"]), "ops": ops, "fname": rng.choice(FNAMES),
+                      "rel": rng.random() < 0.3})
     for _ in range(N):
         target = rng.choice(["str", "str", "path", "bytesio", "tempfile"])
         ops = []
@@ -103,6 +109,7 @@ def gen(rng, tier):
         if target in ("str", "path"):
             c["fname"] = rng.choice(FNAMES)
             c["pre"] = rng.choice(["none", "none", "none", "empty"])     # an empty placeholder file (mkstemp style) may exist
+            c["rel"] = rng.random() < 0.25       # path given RELATIVE to a working directory entered after nir was imported
         cases.append(c)
     return cases
 
@@ -116,10 +123,16 @@ def run(c):
     import nir.serialization
     tmpdir = tempfile.mkdtemp(prefix="nirverif_c15_")
     fobj = None
+    cwd0 = os.getcwd()
+    stray = os.path.join(cwd0, c.get("fname", "register.nir"))
+    stray_existed = os.path.exists(stray)
     try:
         if c["target"] in ("str", "path"):
             p = os.path.join(tmpdir, c.get("fname", "register.nir"))
             tgt = p if c["target"] == "str" else pathlib.Path(p)
+            if c.get("rel"):
+                os.chdir(tmpdir)
+                tgt = os.path.basename(p) if c["target"] == "str" else pathlib.Path(os.path.basename(p))
             if c.get("pre") == "empty":
                 open(p, "wb").close()
         elif c["target"] == "bytesio":
@@ -201,6 +214,9 @@ def run(c):
         nontriv = n_writes >= 2 or fobj is not None
         return Outcome(coq, fail, nontriv, repr(c))
     finally:
+        os.chdir(cwd0)
         if fobj is not None:
             fobj.close()
         shutil.rmtree(tmpdir, ignore_errors=True)
+        if not stray_existed and os.path.isfile(stray) and c.get("rel"):
+            os.remove(stray)          # a write that went to the import-time working directory instead of the path
